@@ -31,7 +31,7 @@ ALL values, sequences and indices (no sorry/axiom; bv_decide only in Lemmas/Bits
                         rel64_type_pack, rel32_pack_unpack, rel64_pack_unpack, sext32_trunc_of_fits
   set_entry_small_entsize_witness / _noop   (outside the domain) the member writes of set_entry with
                         0 < sh_entsize < sizeof(T) go past the buffer (found here, repaired under C18 by
-                        fixes/16-reloc-set-entry-checks: generic_set_entry_* now have the getters' two guards, modelled in
+                        fixes/21-reloc-set-entry-checks: generic_set_entry_* now have the getters' two guards, modelled in
                         Reloc.setGeneric); after the fix such a call leaves the table alone.
 Covered by correspondence + oracle only: "after save and reload".  The harness saves with the real writer, loads the
 image again (eagerly or lazily), continues on the loaded object, and prints the bytes of the saved image at the section's
